@@ -16,7 +16,7 @@ Lemma streq_refl a : streq a a = true.
 Proof. unfold streq. apply String.eqb_refl. Qed.
 
 Definition fills_in (P : Q -> Prop) (v : view) : Prop :=
-  forall o, match vat v o with Fill q => P q | Src _ => True end.
+  forall o, match vat v o with Fill q => P q | Src _ => True | Mix => False end.
 
 Lemma fills_id sh P : fills_in P (v_id sh).
 Proof. intros o. exact I. Qed.
